@@ -64,7 +64,7 @@ func (rn *runner) auxRace(rep string) {
 	for _, l := range strings.Split(rep, "\n") {
 		l = strings.TrimSpace(l)
 		if strings.HasPrefix(l, "github.com/git-lfs/git-lfs/") && len(frames) < 2 {
-			if i := strings.Index(l, "("); i > 0 {
+			if i := strings.LastIndex(l, "("); i > 0 {
 				l = l[:i]
 			}
 			frames = append(frames, strings.TrimPrefix(l, "github.com/git-lfs/git-lfs/v3/"))
@@ -96,7 +96,7 @@ func main() {
 	var cases []*ccase
 	for i := 0; i < nprog; i++ {
 		c := genCase(i, run.Seed*1000003+int64(i), run.Thorough())
-		if run.Thorough() && i%12 == 5 {
+		if (run.Thorough() && i%12 == 5) || os.Getenv("C14_RACE_ALL") != "" {
 			c.Race = true
 		}
 		cases = append(cases, c)
@@ -126,6 +126,11 @@ func main() {
 							run.Inconclusive(fmt.Sprintf("case %d: harness panic: %v\n%s", c.Idx, x, buf))
 						}
 					}()
+					if run.Violations() >= 8 {
+						// the verdict is settled; do not spend watchdog time on the rest
+						run.Count("cases_skipped_after_8_violations", 1)
+						return
+					}
 					seed := run.Seed*7919 + int64(c.Idx)*104729
 					if c.Real != "" {
 						rn.realGit(c, seed)
@@ -144,6 +149,9 @@ func main() {
 		}
 	}
 	for _, c := range cases {
+		if only := os.Getenv("C14_ONLY"); only != "" && only != fmt.Sprint(c.Idx) {
+			continue // debugging aid: a single program
+		}
 		if c.Real == "" {
 			jobs <- c
 		}
